@@ -371,7 +371,9 @@ class Family:
         (AFI.ipv6, SAFI.multicast): ((16, 32), 0),
         (AFI.ipv6, SAFI.nlri_mpls): ((16, 32), 0),
         (AFI.ipv6, SAFI.mup): ((4, 16), 0),
-        (AFI.ipv6, SAFI.mpls_vpn): ((24, 40), 8),
+        # RFC 4659 section 3.2.1.1: 24 (RD + global), or 48 when a link-local VPN-IPv6 address follows
+        # (RD + global + RD + link-local); 40 is the RD + global + link-local form this speaker writes itself
+        (AFI.ipv6, SAFI.mpls_vpn): ((24, 40, 48), 8),
         (AFI.ipv6, SAFI.mcast_vpn): ((4, 16), 0),
         (AFI.ipv6, SAFI.flow_ip): ((0, 16, 32), 0),
         (AFI.ipv6, SAFI.flow_vpn): ((0, 16, 32), 0),
